@@ -136,9 +136,9 @@ def serialWindow (min max : Nat) : List ROut → Except RunErr (Option Probe)
   | .nilProbe :: _ => .error .badProbe
   | .accept p :: _ => if validProbe min max p then .ok (some p) else .error .badProbe
 
-/-- serial slot update after the `fix:` for F10: first reply for a TTL wins, except that a
-    destination reply replaces a non-destination one (same rule as the parallel engine) -/
-def serialWrite (s : Slots) (p : Probe) : Slots := fun t => if t = p.ttl then some p else s t
+/-- serial slot update (after the `fix:` for F10): the same rule as the parallel engine — the first
+    reply for a TTL wins, except that a destination reply replaces a non-destination one -/
+def serialWrite (s : Slots) (p : Probe) : Slots := writeProbe s p
 
 /-- `TracerouteSerial` as a fold over windows (one per probed TTL, in order). `sendFailAt` = index of
     the window whose `SendProbe` failed. -/
